@@ -68,3 +68,25 @@ Theorem C13_options_row_wire_round_trip :
   forall o : woptions, wf_options o -> nlen (ser_options o) < varint_max -> parse_options (ser_options o) = Some o.
 Proof. exact parse_options_ser. Qed.
 Print Assumptions C13_options_row_wire_round_trip.
+
+(* Header fidelity from bytes: what the reader derives from the bytes a stream writes -- framing
+   detection, frame reader, protobuf parser, options row -- is exactly what the stream was created
+   with, whether written delimited or as a single message. *)
+From PJ.Proofs Require Import BytesE2E HeaderBytes.
+Theorem C13_header_from_bytes_delimited :
+  forall (c : stream_class) (ig : integ) (o : soptions) (s : stream) (rows : list row) (md : list (str * str)) (rest : list frame),
+    stream_new c ig o = Ok s ->
+    let f := {| f_rows := options_row s :: rows; f_meta := md |} in
+    Forall sendable (f :: rest) ->
+    get_options_and_frames (write_delimited (f :: rest)) = Ok (expected_options c o s true, f :: rest, FiEof, 1%nat).
+Proof. exact header_from_bytes_delimited. Qed.
+Print Assumptions C13_header_from_bytes_delimited.
+
+Theorem C13_header_from_bytes_single :
+  forall (c : stream_class) (ig : integ) (o : soptions) (s : stream) (rows : list row) (md : list (str * str)),
+    stream_new c ig o = Ok s ->
+    let f := {| f_rows := options_row s :: rows; f_meta := md |} in
+    sendable f ->
+    get_options_and_frames (write_single f) = Ok (expected_options c o s false, [f], FiEof, 1%nat).
+Proof. exact header_from_bytes_single. Qed.
+Print Assumptions C13_header_from_bytes_single.
